@@ -2,7 +2,7 @@ SPECIFICATION Spec
 CONSTANTS
   MaxRoots = 2
   MaxFiles = 2
-  FileFaults = {"E", "P", "N", "M", "A", "S", "W", "C", "R", "Z", "T"}
+  FileFaults = {"E", "P", "N", "M", "A", "S", "W", "C", "R", "Z", "T", "G"}
   RootFaults = {"badtoml", "vermismatch", "missing", "dir"}
   Combos <- MCCombos
   GenMode = "all"
